@@ -39,6 +39,8 @@ type vScenOpts struct {
 	Window     int
 	Notes      bool
 	DateLayout string
+	PathSegs   []string
+	PathMax    int
 }
 
 func vGenScenario(t *rapid.T, o vScenOpts) vScenario {
@@ -62,7 +64,7 @@ func vGenScenario(t *rapid.T, o vScenOpts) vScenario {
 	if maxr == 0 {
 		maxr = 7
 	}
-	book, info := vGenBook(t, vBookOpts{MaxRecipes: maxr, MaxDepth: maxd, Wild: false, Exact: s.Exact, Paths: o.Paths, Layout: lo, Notes: o.Notes}, "book")
+	book, info := vGenBook(t, vBookOpts{MaxRecipes: maxr, MaxDepth: maxd, Wild: false, Exact: s.Exact, Paths: o.Paths, Layout: lo, Notes: o.Notes, PathSegs: o.PathSegs, PathMax: o.PathMax}, "book")
 	s.Book, s.Recipes, s.Basics = book, info.Recipes, info.Basics
 	nu := o.NUnknown
 	if nu == 0 {
@@ -79,7 +81,15 @@ func vGenScenario(t *rapid.T, o vScenOpts) vScenario {
 	for i := 0; i < k; i++ {
 		var nm string
 		if o.Paths {
-			nm = vGenPath(t, []string{"a", "b", "c", "dd", "e f", "u"}, 4, "unk")
+			usegs := []string{"a", "b", "c", "dd", "e f", "u"}
+			if len(o.PathSegs) > 0 {
+				usegs = o.PathSegs
+			}
+			umax := 4
+			if o.PathMax > 0 {
+				umax = o.PathMax
+			}
+			nm = vGenPath(t, usegs, umax, "unk")
 		} else {
 			nm = vGenName(t, false, "unk")
 		}
